@@ -364,15 +364,15 @@ def run(tier):
         casesA, sampled = casesA[:4000], True
     cases = cases + cases1 + casesA + cases3
     consts = dict(consts, WithAgentOps=True)
-    sim = tlc.run("Gen_C20", GEN_CFG, consts=dict(consts, MaxLen=10, Exhaustive=False, WithDeliveries=True), workers=1, simulate=2500 if quick else 20000, depth=11,
+    sim = tlc.run("Gen_C20", GEN_CFG, consts=dict(consts, MaxLen=10, Exhaustive=False, WithDeliveries=True), workers=1, simulate=1000 if quick else 8000, depth=11,
                   seed=seed() + 20, timeout=240 if quick else 1200)
-    v.add_tlc(sim, "random histories of 10 operations (TLC -simulate)")
+    v.add_tlc(sim, "random histories of 10 operations (TLC -simulate; about 25 histories per requested trace)")
     longer = [c[0] for c in sim.tagged("CASE")]
     hist = []
     r = random.Random(seed() + 20)
     for case in cases + longer:
         explicit = any(o["k"] in ("dl", "drain") for o in case["ops"])
-        for rep in range(1 if len(case["ops"]) <= 3 and explicit else 2 if explicit else 3):
+        for rep in range(1 if explicit and (len(case["ops"]) <= 3 or (quick and len(case["ops"]) >= 10)) else 2 if explicit else 3):
             # (histories without explicit deliveries are drained at their end: once in a random order, once per priority order)
             h, _ = execute(len(hist), case["ops"], 3 * r.randrange(10 ** 6) + (rep if not explicit else 0), case.get("agents"))
             hist.append(h)
